@@ -37,7 +37,7 @@ def replay(rec):
 LEVEL_TEXT = ("negotiate_as_requestor verified by induction over the requested contexts (one output per id, acceptor's result and "
               "transfer syntax, PS3.7 role outcome); composition lemma: both real functions executed on every role/ordering case, the "
               "acceptor's answer handed over as the AC PDU carries it - same accepted ids, same syntaxes, complementary roles; AC wire "
-              "round trip re-proved.")
+              "round trip re-proved. ACSE._negotiate_as_requestor under contract: proposed roles applied to every requested context (None as False), arguments of the negotiation, accepted/rejected split, outcome per response kind; bounded family (not counted) for restructured role application.")
 LEVEL_NOTE = "trusted: pyvc, z3, spec/roles.py, C01/C10 contracts; ACSE glue (_negotiate_as_requestor role application) see NOT_DECIDED."
 TECHNIQUE = "deductive: inductive contract on negotiate_as_requestor + exhaustive composition lemma through both real functions"
 NOT_DECIDED = ["ACSE._negotiate_as_requestor's role-application loop and accepted/rejected split are covered by C13/C12 tasks when built"]
